@@ -74,12 +74,7 @@ class FreshnessDateDataParser:
                 now = now.replace(tzinfo=self.get_local_tz())
 
         elif ptz:
-            localized_now = datetime.now(ptz)
-
-            if "local" in _settings_tz:
-                now = localized_now
-            else:
-                now = apply_timezone(localized_now, settings.TIMEZONE)
+            now = datetime.now(ptz)
 
         else:
             if "local" not in _settings_tz:
@@ -94,6 +89,11 @@ class FreshnessDateDataParser:
             date = apply_time(date, _time)
             if settings.RETURN_TIME_AS_PERIOD and isinstance(_time, time):
                 period = "time"
+
+            if ptz and "local" not in _settings_tz:
+                # The phrase (and a clock time in it) was evaluated in the
+                # string's own timezone; TIMEZONE re-expresses that instant.
+                date = apply_timezone(date, settings.TIMEZONE)
 
             if settings.TO_TIMEZONE:
                 date = apply_timezone(date, settings.TO_TIMEZONE)
